@@ -53,6 +53,8 @@ var c26Pieces = []piece{
 	{"selector-dot-eol", []seg{c("x = st.\n\tf.\n\tg\n")}},
 	{"method-chain-dot-eol", []seg{c("v := b.\n\tWithA().\n\tWithB(1)\n")}},
 	{"float-dot-eol", []seg{c("fl := 1.\n")}},
+	{"selector-dot-digit-ident", []seg{c("v2 := b2.\n\tWithA().\n\tv1\n")}},
+	{"hex-float-dot-eol", []seg{c("fl = 0x1f + 12e3 + 1.\n")}},
 	{"comment-stars", []seg{k("/** doc { ( **/"), c("\n")}},
 	{"comment-stars-multi", []seg{k("/***\n * text [\n ***/"), c("\n")}},
 	{"comment-only-stars", []seg{k("/***/"), c("\n")}},
